@@ -3,6 +3,8 @@ import Siot.Lemmas.ExportStore
 import Siot.Lemmas.ExportForest
 import Siot.Lemmas.ExportTime
 import Siot.Gen.Export
+import Siot.Lemmas.StoreRows
+import Siot.Props.C03
 /-
 C15 — Export followed by import reproduces the tree.
 Property theorems only; helper lemmas live in Siot/Lemmas/Export.lean.
@@ -382,5 +384,33 @@ theorem gen_export_pinned :
 theorem gen_export_constants_pinned :
     strBytes Gen.sPointTypeDescription = descriptionT ∧ strBytes Gen.sPointTypeNodeID = nodeIDT := by
   decide +kernel
+
+/-- **C15 (the records of an export meet the premises of the import theorems).** `c15_import_stored` and the theorems
+built on it ask that every node of the file is `Exported`: its points and edge points are the exported form of stored rows
+— no empty key, no -0, no NaN, one row per identity, no node type among the edge rows — with time stamps. For a file written
+by `ExportNodes` from ANY store reachable by write requests this is not an assumption: the store normalises what it
+writes and refuses NaN (`rowInv_run`), keeps one row per identity (`c03_reachable`), and `exportNodesHelper` builds the
+record from exactly those rows (`recOf`). The one genuine premise left is that the rows carry time stamps (a writer
+that sends a zero time is stamped by the store's clock in the implementation; the store model takes the time as given). -/
+theorem c15_exported_records_meet_the_premises (ops : List WOp) (e : Edge)
+    (htime : ∀ id, ∀ p ∈ ptsOf (run {} ops) id, p.time ≠ 0) (hetime : ∀ u d, ∀ p ∈ eptsOf (run {} ops) u d, p.time ≠ 0) :
+    Exported (recOf (run {} ops) e) (ptsOf (run {} ops) e.down) (eptsOf (run {} ops) e.up e.down) := by
+  have hr := rowInv_run ops {} rowInv_empty
+  have hi := c03_reachable ops
+  have rowOk : ∀ p : Point, RowGood p → p.time ≠ 0 → RowOk p := by
+    intro p hg ht
+    refine ⟨?_, ?_, hg.2, ht⟩
+    · intro hk
+      have : (normPoint p).key = p.key := by rw [hg.1]
+      unfold normPoint normKey at this
+      simp only [hk, List.isEmpty_nil, if_true] at this
+      exact absurd this (by decide)
+    · intro hv
+      have : (normPoint p).value = p.value := by rw [hg.1]
+      unfold normPoint at this
+      simp only [hv, if_true] at this
+      exact absurd this (by decide)
+  exact ⟨rfl, rfl, fun p hp => rowOk p (hr.1 _ (ptsOf_mem _ _ p hp)) (htime _ p hp), hi.npu _,
+    fun p hp => ⟨rowOk p (hr.2 _ (eptsOf_mem _ _ _ p hp)).1 (hetime _ _ p hp), (hr.2 _ (eptsOf_mem _ _ _ p hp)).2⟩, hi.epu (e.up, e.down)⟩
 
 end Siot.Export
